@@ -10,7 +10,7 @@ V: TLC (TextTrace + reference lexer LuaLex) judges: identical code-token stream;
 import json, os, random
 import vlib
 from vlib import Report, tlc, tlc_ok
-from text_common import trivia_cases, run_and_judge, text_of, lits
+from text_common import trivia_cases, run_and_judge, text_of, lits, rejudge_without_ellipsis_trivia
 
 PID = "C18"
 EXCEPT = ["KEEP", "^--!"]
@@ -31,7 +31,7 @@ def build_cases(tier, rng):
         gen += gen2
     cases = []
     for k, c in enumerate(trivia):
-        base = {"src": c["src"], "tpl": c["tpl"], "gap": c["gap"], "k1": c["k1"], "k2": c["k2"], "mode": c["mode"]}
+        base = {"src": c["src"], "tpl": c["tpl"], "gap": c["gap"], "k1": c["k1"], "k2": c["k2"], "mode": c["mode"], "tspans": c.get("tspans", [])}
         cases.append(dict(base, id="rc%d" % k, kind="remove_comments", rules="['remove_comments']", **{"except": []}))
         cases.append(dict(base, id="rx%d" % k, kind="remove_comments",
                           rules="[{ rule: 'remove_comments', except: %s }]" % json.dumps(EXCEPT), **{"except": lits(EXCEPT)}))
@@ -60,6 +60,8 @@ def build_cases(tier, rng):
 def judge_all(rep, cases, label):
     obs, verdicts, res = run_and_judge(rep.wd, label, cases)
     skipped = 0
+    failing = [cid for cid, v in verdicts.items() if not v["ok"] and not obs[cid]["status"].startswith("parse_error")]
+    ellipsis = rejudge_without_ellipsis_trivia(rep.wd, label, obs, failing)      # finding F-C03-f, decided by the same TLC judge
     for cid, v in verdicts.items():
         o = obs[cid]
         if o["status"].startswith("parse_error"):
@@ -68,7 +70,7 @@ def judge_all(rep, cases, label):
         if v["ok"]:
             continue
         sig = {"kind": o["kind"], "status": o["status"][:100], "code_equal": v["code_equal"], "comments_ok": v["comments_ok"],
-               "lines_ok": v["lines_ok"], "lex_out": v["lex_out"]}
+               "lines_ok": v["lines_ok"], "lex_out": v["lex_out"], "cause": "trivia-after-type-pack-ellipsis" if cid in ellipsis else "other"}
         if o["kind"] == "append":
             sig.update({"location": o["location"], "text": bytes(o["text"]).decode("latin-1"), "opens_long": o.get("opens_long", False),
                         "lone_cr": o.get("lone_cr", False), "file": o.get("file", -1)})
@@ -87,7 +89,8 @@ def run(tier):
     cases, st, gen, ntrivia, ntexts, nunsafe = build_cases(tier, rng)
     pinned = []
     for r in vlib.pinned_reproducers(PID):
-        pinned.append(r)
+        if r.get("kind") != "identity":          # identity reproducers of shared findings belong to C03
+            pinned.append(r)
     res, n, skipped = judge_all(rep, cases + pinned, "c18")
     if skipped > n // 20:
         raise vlib.ToolError("%d of %d cases did not parse" % (skipped, n))
